@@ -175,6 +175,16 @@ PROPS = {
         'out': 'the bulk of the property: symbol translation, reloading of blocks, facts per origin, policies, from_snapshot (strings + protobuf + whole-authorizer state) - only the numeric envelope and the origin encoding are decided',
         'level_text': 'Numeric envelope only: bounded symbolic execution of snapshot() on an empty authorizer for every value of the limits and counters.',
     },
+    'C04': {
+        'crate': 'biscuit-auth',
+        'quick': [r'c04_scope_\w+', r'c03_trust_scopes[12]'],
+        'thorough': [r'c03_trust_\w+'],
+        'cap': {'quick': 400, 'thorough': 1200},
+        'functions': ['datalog::origin::TrustedOrigins::{default,from_scopes,contains}'],
+        'bounds': 'as C03, plus block-level scope lists (0..2) combined with rule/check-level scope lists (0..2): which origins a rule, check or policy of a block sees',
+        'out': 'EVERYTHING ELSE in the property: the decision procedure itself (check kinds, policy order, failed-check lists, queries) - Authorizer::authorize_inner over World::query_match could not be executed symbolically (even `check if <literal>` on an empty store did not finish: Expression::evaluate clones enum values out of heap vectors); how tokens are loaded into the authorizer (public key -> block map)',
+        'level_text': 'Scope semantics only ("facts are visible to a rule, check or policy only when every block that contributed to them is trusted by its scope"): bounded symbolic execution of the trust computation against an independent bit-mask specification. The authorization decision itself is NOT decided by this check.',
+    },
 }
 
 
@@ -182,6 +192,10 @@ def bound_of(prop, harness):
     return PROPS[prop].get('bounds', '')
 
 NOT_APPLICABLE = {
+    'C11': 'determinism over hash orders needs Rule::find_match / check_match_all / run_with_limits under a nondeterministic iteration order; one rule application over one fact did not finish under CBMC (boxed iterator chains, per-binding hash maps of enum values), so no kernel of this property is within reach',
+    'C14': 'printing goes through core::fmt and parsing through nom combinators over strings: both are byte loops over symbolic-length buffers behind trait objects that the symbolic executor does not get through (fmt alone made harnesses time out and is stubbed everywhere else); the unescaped-quote defect F2 was found by reading and is recorded in DESIGN.md only',
+    'C19': 'Kani 0.68 fails with an internal compiler error (kani-compiler/src/intrinsics.rs:243, an intrinsic whose output type it does not expect) while collecting the code reachable from any harness in the biscuit-capi crate, so no C entry point can be encoded; the size / buffer defects F10 were found by reading and are recorded in DESIGN.md only',
+    'C20': 'parameter substitution walks builder ASTs (enums holding owned Strings inside heap vectors and hash maps keyed by String); the smallest case - one fact, one parameter, one integer value - did not finish in 400 s under CBMC (pointers stored in enum payloads on the heap are not resolved), so the property cannot be decided by this technique here; defects F7 were found by reading and are recorded in DESIGN.md only',
     'C12': 'quantifies over multi-step build/append/serialize histories compared across a protobuf round trip with real string interning and signing; no bounded harness can execute those paths (prost + ed25519 + string tables) and no leaf kernel captures the index-shift failures the property is about',
     'C18': 'the subject is proc-macro token generation at compile time; there is no function a solver can execute symbolically whose result is the program the macro expands to',
 }
